@@ -40,7 +40,7 @@ func checkEvictInsertOneTx(c *Ctx, rule string) {
 				continue
 			}
 			// drop-oldest = delete {queued} reachable from Enqueue that is not the shared prune helper
-			if t.From != ssParse("queued") || len(p.CallSitesOf(t.Stmt.Fn)) >= 4 {
+			if t.From != ssParse("queued") || p.SharedBy(t.Stmt.Fn) >= 4 {
 				continue
 			}
 			if strings.Contains(strings.ToLower(m.R(t.Stmt, strings.Join(t.Stmt.St.where, " "))), "received_at <=") {
